@@ -2,9 +2,9 @@ package checks
 
 import (
 	"fmt"
-	"strings"
 	"go/token"
 	"go/types"
+	"strings"
 
 	"golang.org/x/tools/go/ssa"
 
@@ -64,6 +64,7 @@ func checkC02(c *Ctx) *report.Result {
 	r.Rule("S2", "fetch routine, for each opcode byte: installs that opcode's row, resets the cycle counter to 0, installs the row's predicate (none for CB rows) and advances pc by 1 (2 for CB)")
 	r.Rule("S3", "finished predicate: without early-exit predicate it is cycle == len(row); with one it is the predicate's value")
 	r.Rule("S4", "no sub-instruction before the early-exit cycle of a conditional row writes F; the first entry of every CB row has no effect (the prefix is consumed inside the row)")
+	r.Rule("S6", "fetch gate: with halted and stopped clear and no interrupt sequence due, the fetch routine fetches (reports not idle, installs a row, resets the cycle counter) whatever the rest of the machine state is")
 	r.Rule("L-int", "interrupt sequences: dispatch 5 cycles, from HALT 6, wake without dispatch 1")
 	r.TrustedBase = []string{"documented SM83 cycle table (oracle.Base/CB)", "go/types, go/ssa", "abstract interpreter (inlining, constant propagation, known bits)"}
 	m := c.machine()
@@ -166,12 +167,15 @@ func checkC02(c *Ctx) *report.Result {
 	c.schedulerLemmas(r, m)
 	c.interruptSequences(r, m)
 	c.sequenceInstall(r, m)
+	c.fetchGate(r, m)
 	// the rows and predicates the lemmas talk about must belong to the instance that executes them
 	r.Rule("S5", "the dispatch rows, interrupt sequences and early-exit predicates are per-instance state: nothing in package cpu that New or the run phase writes is package-level (rule G2 of C25 restricted to package cpu)")
-	adopt(r, checkC25(c), map[string]string{"G2": "S5"}, "a table shared between machines makes one machine's instruction length depend on another machine's flags", func(f report.Finding) bool {
+	adopt(r, c.sibling("C25"), map[string]string{"G2": "S5"}, "a table shared between machines makes one machine's instruction length depend on another machine's flags", func(f report.Finding) bool {
 		return strings.Contains(f.Construct, "state cpu.") || strings.Contains(f.Construct, "(*cpu.")
 	})
 	_ = it
+	r.Rule("L-halt", "HALT decision table of C05 (H-halt) re-stated: HALT occupies one machine cycle and idles only in the documented cases")
+	adopt(r, c.sibling("C05"), map[string]string{"H-halt": "L-halt"}, "a HALT that enters the idle state in the halt-bug case occupies an extra machine cycle")
 	return r
 }
 
@@ -464,4 +468,80 @@ func (c *Ctx) sequenceInstall(r *report.Result, m *Machine) {
 		}
 		r.Ob("S2", ok, fmt.Sprintf("fetch routine installs the %d-entry interrupt sequence at cycle 0 without an early-exit predicate", n), firstPos(c, m.NextFn), "after installing an interrupt sequence the cycle counter is not 0 or an early-exit predicate (possibly the previous instruction's) is still set")
 	}
+}
+
+// fetchGate: the only states in which the fetch routine may decline to fetch are halted and
+// stopped (and an interrupt sequence being due).  Every other CPU cell is left symbolic, so a
+// fetch that has been made conditional on anything else (a debugging flag, a latch) is visible
+// as a non-constant "idle" result or a row that is not installed on every path.
+func (c *Ctx) fetchGate(r *report.Result, m *Machine) {
+	it := c.W.It
+	im := c.interruptModel(r, "S6")
+	if im == nil {
+		return
+	}
+	cpu := m.CPU
+	st := it.StateOn(c.W.Generic)
+	for _, p := range []string{".halted", ".stopped"} {
+		if ai.LeafTypeAt(cpu.T, p) == nil {
+			r.Fail("unresolved", "S6", "cell "+p, "", "the CPU has no such cell")
+			return
+		}
+		st.SetCell(cpu, p, ai.NewConstBool(false))
+	}
+	stt, _ := cpu.T.Underlying().(*types.Struct)
+	rowField := ""
+	for i := 0; stt != nil && i < stt.NumFields(); i++ {
+		f := stt.Field(i)
+		if isFuncSlice(f.Type()) && m.Base[0] != nil && m.Base[0].Slice != nil {
+			// the row slot is the []func() cell the fetch of opcode 0 changed
+			for _, b := range m.NextFn.Blocks {
+				for _, ins := range b.Instrs {
+					if sto, ok := ins.(*ssa.Store); ok {
+						if fa, ok := sto.Addr.(*ssa.FieldAddr); ok && fieldName(fa) == f.Name() {
+							rowField = "." + f.Name()
+						}
+					}
+				}
+			}
+		}
+	}
+	it.Intercepts[im.CheckFn] = func(s *ai.State, _ ssa.Instruction, _ []ai.Value) (ai.Value, *ai.State) {
+		return &ai.NilV{T: im.CheckFn.Signature.Results().At(0).Type()}, s
+	}
+	if rowField != "" {
+		st.SetCell(cpu, rowField, &ai.NilV{T: ai.LeafTypeAt(cpu.T, rowField)}) // marker: "no row installed"
+	}
+	ev, calls := c.evalCPU(st, m.NextFn, []ai.Value{ptrTo(cpu)}, nil, nil)
+	delete(it.Intercepts, im.CheckFn)
+	idle, ic := boolConst(asBool(ev.Result))
+	cy, cyc := constOf(c.cellInt(ev.Post, cpu, ".currentCycle"))
+	rowStored := false
+	if rowField != "" {
+		lbl := c.cellLabel(ai.CellKey{Obj: cpu.ID, Path: rowField})
+		_, rowStored = ev.Stores[lbl]
+		if ev.Weak[lbl] || ev.Post == nil {
+			rowStored = false
+		} else {
+			switch v := ev.Post.LoadPtr(&ai.Ptr{Obj: cpu, Path: rowField, Elem: ai.LeafTypeAt(cpu.T, rowField)}).(type) {
+			case *ai.NilV:
+				rowStored = false
+			case *ai.Multi:
+				for _, a := range v.Alts {
+					if _, isNil := a.(*ai.NilV); isNil {
+						rowStored = false // some path leaves the marker in place
+					}
+				}
+			}
+		}
+	}
+	reads := 0
+	for _, mc := range calls {
+		if !mc.Write {
+			reads++
+		}
+	}
+	ok := ev.Post != nil && ic && !idle && cyc && cy == 0 && rowStored && reads >= 1 && len(ev.Undecided) == 0
+	r.Ob("S6", ok, "fetch routine with halted and stopped clear, no interrupt due, all other state symbolic", firstPos(c, m.NextFn),
+		fmt.Sprintf("reports idle: %s (documented false); cycle counter afterwards %s (documented 0); row installed on every path: %v; opcode reads: %d; undecided %v", ai.ValueString(ev.Result), ai.ValueString(c.cellInt(ev.Post, cpu, ".currentCycle")), rowStored, reads, ev.Undecided))
 }
